@@ -68,6 +68,18 @@ def gen_case(rng, thorough):
     for l in locs: ops.append({"op": "snapshot", "loc": l})
     return locs, ops
 
+# C09-diamond-visited-twice (repaired): the facts of an ancestor shared by two parents are returned once
+FORMER = [
+    {"locs": ["a", "b", "c", "d"], "ops": [{"op": "setParents", "loc": "a", "parents": ["b", "c"]}, {"op": "setParents", "loc": "b", "parents": ["d"]},
+                                        {"op": "setParents", "loc": "c", "parents": ["d"]}, {"op": "addFact", "loc": "d", "id": "f1", "fact": {"k": 1}},
+                                        {"op": "search", "loc": "a", "pattern": {"k": "?k"}, "inherited": True},
+                                        {"op": "addFact", "loc": "b", "id": "f2", "fact": {"k": 2}}, {"op": "search", "loc": "a", "pattern": {"k": "?k"}, "inherited": True},
+                                        {"op": "listRules", "loc": "a", "inherited": True}, {"op": "query", "loc": "a", "query": {"pattern": {"k": "?k"}}}]},
+    {"locs": ["a", "b", "c"], "ops": [{"op": "setParents", "loc": "a", "parents": ["b", "c"]}, {"op": "setParents", "loc": "b", "parents": ["c"]},
+                                   {"op": "addFact", "loc": "c", "id": "f1", "fact": {"k": 1}}, {"op": "search", "loc": "a", "pattern": {"k": "?k"}, "inherited": True},
+                                   {"op": "setParents", "loc": "a", "parents": ["c", "c"]}, {"op": "search", "loc": "a", "pattern": {"k": "?k"}, "inherited": True}]},
+]
+
 def main():
     ck = Check("C09")
     if "--replay" in sys.argv:
@@ -81,7 +93,9 @@ def main():
     precedence = lambda c, k, op, mo, io: err_of(io) in WALK_ERRS and err_of(mo) in WALK_ERRS and "dupId" in (err_of(io), err_of(mo))
     lr = LocRun(ck, [("doc:ancestor-error-precedence", precedence)]); lr.build()
     n = 400 if not ck.thorough else 8000
-    gens = [gen_case(ck.rng, ck.thorough) for _ in range(n)]
+    gens = [gen_case(ck.rng, ck.thorough) for _ in range(n - len(FORMER))]
+    # the witnesses of repaired findings run as ordinary histories (the model describes the repaired tree)
+    gens = [(f["locs"], copy.deepcopy(f["ops"])) for f in FORMER] + gens
     cases = [{"kind": "loc", "state": st, "locs": l, "ops": copy.deepcopy(o)} for l, o in gens for st in ("indexed", "linear")]
     impl, model, mc = lr.run(cases, check_spec=False, nontrivial=lambda c: any(o["op"] == "setParents" and o["parents"] for o in c["ops"]))
     # the frame property, directly on the real code: an op addressed to one location leaves every other location's memory and storage alone.
